@@ -570,3 +570,91 @@ package corerad
 //@   at call collectMetrics(cm, cctx): assert S1 [C17,C04]: cctx.Interface == ifi.Name && cctx.Advertising == ifi.Advertise && cctx.Monitoring == ifi.Monitor && cctx.Autoconfiguration == auto && cctx.Forwarding == fwd && (ifi.Advertise ==> cctx.Advertisement != nil && fwd == ghost.fwdVal && ghost.fwdName == ifi.Name && cctx.Advertisement.RouterLifetime == ite(fwd, ifi.DefaultLifetime, 0) && raHeaderFrom(cctx.Advertisement, ifi) && len(cctx.Misconfigurations) == b2i(!fwd && ifi.DefaultLifetime > 0)) && (!ifi.Advertise ==> cctx.Advertisement == nil && len(cctx.Misconfigurations) == 0)
 //@   opt safety [C17]
 //@   opt frame [C17]
+
+// ---------------------------------------------------------------------------
+// server.go, signals_unix.go: supervision (C20, C08)
+
+//@ ghost var termSet Bool
+//@ ghost var termVal Bool
+//@ ghost var tasksStarted Int
+//@ ghost var egWaited Bool
+
+//@ func isTerminal
+//@   ensures E1 [C20,C08]: result == (s != iface(1, "syscall.Signal"))
+
+//@ func (*terminator).set
+//@   requires P1: t != nil
+//@   assigns heap(corerad.terminator) at t, ghost.termSet, ghost.termVal, ghost.lockDepth
+//@   at return all: ghost.termSet = true ; ghost.termVal = t.term
+//@   ensures E1 [C20,C08]: t.term == (s != iface(1, "syscall.Signal")) && ghost.termSet && ghost.termVal == t.term
+//@   opt guarded term mu [C20]
+//@   opt safety [C20]
+//@   opt frame [C20]
+
+//@ func (*terminator).terminate
+//@   requires P1: t != nil
+//@   assigns ghost.lockDepth
+//@   ensures E1 [C20,C08]: result == t.term
+//@   opt guarded term mu [C20]
+//@   opt safety [C20]
+
+//@ funcfield corerad.signalTask.cancel()
+//@   requires C1 [C20,C08]: ghost.termSet
+//@   assigns ghost.done
+
+// The signal watcher: records terminate-vs-reload BEFORE cancelling the tasks.
+//@ func (*signalTask).Run
+//@   requires P1: ctx != nil && t.t != nil && t.cancel != nil && t.ll != nil
+//@   assigns heap(corerad.terminator) at t.t, ghost.termSet, ghost.termVal, ghost.lockDepth, ghost.done, ghost.notified, ghost.now
+//@   ensures E1 [C20]: result == nil
+//@   opt cancelable [C20]
+//@   opt safety [C20]
+//@   opt frame [C20]
+
+// One errgroup goroutine per task: runs it with the shared context.
+//@ iface corerad.Task.Run(self, ctx) (err)
+//@   assigns everything
+//@ iface corerad.Task.Ready(self) (ch)
+//@ iface corerad.Task.String(self) (s)
+//@ func (*Server).Serve$1
+//@   opt capture CAP
+//@   requires CAP [C20]: t != nil && ctx != nil
+//@   assigns everything
+//@   at call Run(rctx): assert R1 [C20]: rctx == ctx
+//@   ensures E1 [C20]: true
+//@   opt safety [C20]
+
+// Readiness goroutine: Done exactly once, after the task reported ready.
+//@ func (*Server).Serve$2
+//@   ghost local ready Bool
+//@   opt capture CAP
+//@   requires CAP [C20]: t != nil && n != nil
+//@   assigns ghost.wgCount, ghost.notified
+//@   at recv t.Ready(rv): ghost.ready = true
+//@   at call Notify(nn, ns): assert N1 [C20]: ghost.ready
+//@   ensures E1 [C20]: ghost.ready && lockGet(ghost.wgCount, addr(wg)) == old(lockGet(ghost.wgCount, addr(wg))) - 1
+//@   opt safety [C20]
+//@   opt frame [C20]
+
+// Overall readiness: announced only after every task reported ready.
+//@ func (*Server).Serve$3
+//@   opt capture CAP
+//@   requires CAP [C20]: n != nil
+//@   assigns ghost.wgWaited, ghost.notified
+//@   at call Notify(nn, ns): assert N1 [C20]: setHas(ghost.wgWaited, addr(wg))
+//@   opt safety [C20]
+//@   opt frame [C20]
+
+//@ func (*Server).Serve
+//@   ghost local started Int
+//@   ghost local spawned Int
+//@   requires P1: s.cctx != nil && s.t != nil && n != nil && forall(k, 0, len(tasks), tasks[k] != nil)
+//@   assigns everything
+//@   at call Go(g, f): ghost.started = ghost.started + 1
+//@   loop 1 invariant L1 [C20]: 0 <= rangeindex + 1 && rangeindex + 1 <= len(ranged(1)) && ghost.started == rangeindex + 1 && len(ranged(1)) == len(old(tasks)) + 1
+//@   loop 1 invariant L2 [C20]: forall(k, 0, len(ranged(1)), ranged(1)[k] != nil)
+//@   loop 1 invariant L3 [C20]: eg != nil && ctx != nil && egNeed(ghost.egNeeds, eg) == 0
+//@   loop 1 invariant L4 [C20]: lockGet(ghost.wgCount, addr(wg)) == old(lockGet(ghost.wgCount, addr(wg))) + len(old(tasks)) + 1
+//@   at call Wait(wg2) (werr): assert W1 [C20]: ghost.started == len(old(tasks)) + 1
+//@   ensures E1 [C20]: ghost.started == len(old(tasks)) + 1
+//@   opt safety [C20]
